@@ -1,0 +1,42 @@
+//go:build verif
+
+// Package verifhooks re-exports a few internal entry points for the out-of-module
+// runtime-verification harness. It only exists when built with `-tags verif`.
+package verifhooks
+
+import (
+	"io"
+
+	"github.com/cedar-policy/cedar-go/internal/eval"
+	"github.com/cedar-policy/cedar-go/internal/parser"
+	"github.com/cedar-policy/cedar-go/x/exp/ast"
+)
+
+// FoldPolicy runs the compile-time constant folder on a policy.
+func FoldPolicy(p *ast.Policy) *ast.Policy { return eval.VerifFoldPolicy(p) }
+
+// ErrorClass classifies an evaluation error by sentinel.
+func ErrorClass(err error) string { return eval.VerifErrorClass(err) }
+
+// Token is a flattened copy of the tokenizer's token.
+type Token struct {
+	Type   int
+	Text   string
+	Offset int
+	Line   int
+	Column int
+}
+
+func conv(ts []parser.Token, err error) ([]Token, error) {
+	out := make([]Token, len(ts))
+	for i, t := range ts {
+		out[i] = Token{Type: int(t.Type), Text: t.Text, Offset: t.Pos.Offset, Line: t.Pos.Line, Column: t.Pos.Column}
+	}
+	return out, err
+}
+
+// Tokenize tokenizes a whole byte slice.
+func Tokenize(src []byte) ([]Token, error) { return conv(parser.Tokenize(src)) }
+
+// TokenizeReader tokenizes from a reader (the streaming path).
+func TokenizeReader(r io.Reader) ([]Token, error) { return conv(parser.TokenizeReader(r)) }
